@@ -953,6 +953,9 @@ class ModuleTestCluster(TestCluster):  # noqa: PLR0904
         if isinstance(generator, GenericCallableAccessibleObject):
             self.__callables.add(generator)
         self.generator_provider.add(generator)
+        # A new generator changes what can be generated for (super)types of its return type.
+        self.generator_provider.clear_generator_cache()
+        self.get_all_generatable_types.cache_clear()
 
     def add_accessible_object_under_test(  # noqa: D102
         self, objc: GenericAccessibleObject, data: CallableData
